@@ -30,6 +30,35 @@ def step (c : Cause) : Ev → Cause
 
 def run (c : Cause) (evs : List Ev) : Cause := evs.foldl step c
 
+/-- the events whose handler calls `stop()` (which sets the termination event) -/
+def stops : Ev → Bool
+  | .lifetimeExpired => true
+  | .cancelCmd named => named
+  | .terminateCmd    => true
+
+/-- the cause `finalize` sees when the main thread runs it as soon as the first `stop()` has set the
+    termination event - while the thread that called `stop()` may still be inside it -/
+def causeAtFirstStop (c : Cause) : List Ev → Option Cause
+  | []      => none
+  | e :: es => if stops e then some (step c e) else causeAtFirstStop (step c e) es
+
+/-- the handlers as sequences of atomic actions (what `Gen.causeWrites` lists per method) -/
+inductive Act where
+  | set (c : Cause)        -- `self._final_cause = ...`
+  | stop                   -- `self.stop()`: default cause, termination event, session closed
+deriving DecidableEq, Repr
+
+/-- the causes `finalize` can observe when it may run at any moment from the first `stop()` on:
+    the cause right after that `stop()` and after every later action of the same handler -/
+def observable (c : Cause) : List Act → List Cause
+  | []            => []
+  | .set x :: as  => observable x as
+  | .stop :: as   => (if c = .none then Cause.cancel else c) ::
+                       (as.foldl (fun (acc : Cause × List Cause) a =>
+                          match a with
+                          | .set x => (x, acc.2 ++ [x])
+                          | .stop  => acc) ((if c = .none then Cause.cancel else c), [])).2
+
 /-- `Agent_0.finalize`: cause -> state written to killme.signal -/
 def finalState : Cause → St
   | .timeout => .done
